@@ -1,6 +1,9 @@
 """property id -> check function(prop, tier, replay_path) -> exit code"""
 import raftfamily
+import c19
 
 CHECKS = {}
+CHECKS["RAFT"] = raftfamily.check_all
 for _p in ("C02", "C03", "C06", "C07", "C18"):
     CHECKS[_p] = raftfamily.check
+CHECKS["C19"] = c19.check
